@@ -18,7 +18,7 @@ REPLY_BODIES = [b"", b"{\"error\":\"invalid_grant\",\"error_description\":\"d\"}
                 # bodies that start like something a client might sniff and rewrite: byte-order marks, compression magics
                 b"\xef\xbb\xbf{\"error\":\"invalid_grant\"}", b"\xef\xbb\xbf", b"\xff\xfe{\x00}\x00", b"\x1f\x8b\x08\x00binary", b"\x78\x9c\x03\x00", b"\r\n\r\n{}", b" {} "]
 REQ_BODIES = [b"grant_type=authorization_code&code=c", b"a=" + b"b" * 2000, b"a=" + b"%41" * 25000, bytes(range(256))]
-FRAMINGS = ["cl", "chunked", "close"]
+FRAMINGS = ["cl", "chunked", "close", "close10"]
 PATHS = ["/token", "/t?x=1&y=%20z", "/"]
 AUTHS = [None, b"Basic YWFhOmJiYg=="]
 
@@ -38,7 +38,7 @@ def gen(tier, rng):
                         i += 1
                         if tier == "quick" and (i * 7 + bi + ri) % 6 != 0:
                             continue
-                        fr = FRAMINGS[i % 3]
+                        fr = FRAMINGS[i % 4]
                         out.append((line(a, rb, AUTHS[i % 2], PATHS[i % 3], st, ct, fr, body, "none"), "reply/%s/%s" % (a, fr)))
         # faults crossed with framing
         for fault in ("refused", "close_before", "garbage_status"):
@@ -88,7 +88,7 @@ def run(tier, rng, C):
         big = []
         for a in ADAPTERS:
             for k, (rn, qn) in enumerate(sizes):
-                for fr in (FRAMINGS if tier != "quick" else [FRAMINGS[k % 3]]):
+                for fr in (FRAMINGS[:3] if tier != "quick" else [FRAMINGS[k % 3]]):
                     big.append(("NETBIG %s %d %d %s %d" % (a, rn, qn, fr, 200 if k % 2 == 0 else 400), rn))
         outs = C.run_lines(C.IMPL_BIN[0], [l for l, _ in big], shards=4)
         bad = 0
@@ -106,7 +106,7 @@ def run(tier, rng, C):
     finally:
         C.IMPL_BIN[0] = C.HARNESS_BIN
     stats["rule"] = ("large bodies (11 MiB / 16 MiB + 1 replies, 3 MiB request) through every adapter; 4 adapters x 14 statuses (200, 201, 301/302/303/307/308 each with a Location header that must NOT be followed, 400, 401, 403, 404, 429, 500, 503) x 4 Content-Types x 6 reply bodies (empty, JSON, all byte values, NUL/0xFF, 70 kB, token document) "
-                     "x 4 request bodies (small, 2 kB, 75 kB, all byte values) with framing rotating over Content-Length / chunked / close-delimited, 1 in 6 (quick) or all (thorough); "
+                     "x 4 request bodies (small, 2 kB, 75 kB, all byte values) with framing rotating over Content-Length / chunked / close-delimited / HTTP/1.0 close-delimited, 1 in 6 (quick) or all (thorough); "
                      "faults {refused, closed before reply, garbage status line, body truncated under Content-Length and under chunked framing} x 4 adapters; a full exchange_code per adapter for 8 replies x 3 Content-Types; "
                      "observed: bytes the server received (method, target, Accept/Content-Type/Authorization, body), the response or error the adapter returned, number of connections (redirects not followed); "
                      "non-trivial = a response came back / a typed outcome")
